@@ -80,7 +80,7 @@ func (fr *Frame) execCallWith(instr ssa.Instruction, call *ssa.CallCommon, fnv *
 		// a function value that may be one of the closures created in this function: dispatch on identity
 		var cands []*Val
 		for _, cv := range fr.closures {
-			if types.Identical(cv.Clo.Fn.Signature, sig) && len(cv.Clo.Fn.Blocks) > 0 {
+			if types.Identical(cv.Clo.Fn.Signature, sig) && (len(cv.Clo.Fn.Blocks) > 0 || c.V.contractForFn(cv.Clo.Fn) != nil) {
 				cands = append(cands, cv)
 			}
 		}
@@ -97,6 +97,12 @@ func (fr *Frame) execCallWith(instr ssa.Instruction, call *ssa.CallCommon, fnv *
 		}
 		return v
 	}
+	return fr.callStatic(instr, callee, bind, sig, args, st, reach, rt)
+}
+
+// callStatic executes a call whose target function is known.
+func (fr *Frame) callStatic(instr ssa.Instruction, callee *ssa.Function, bind []*Val, sig *types.Signature, args []*Val, st *State, reach *Term, rt types.Type) *Val {
+	c := fr.c
 	full := callee.String()
 	if callee.Object() != nil {
 		if f, ok := callee.Object().(*types.Func); ok {
@@ -601,10 +607,22 @@ func (c *Ctx) pureFuncApp(f *types.Func, sig *types.Signature, args []*Val) (*Va
 		sorts = append(sorts, a.T.Sort)
 		ts = append(ts, a.T)
 	}
+	var sig2 []string
+	for _, s := range sorts {
+		sig2 = append(sig2, sortName(s))
+	}
 	v := buildVal(rt, func(l leaf) *Term {
 		fn := name + l.name
 		if l.name != "" {
 			fn = smtName("pf_" + f.FullName() + l.name)
+		}
+		// the same Go function applied with another arity (variadics) gets its own symbol
+		key := "pfsig:" + fn
+		want := strings.Join(sig2, ",") + "->" + string(l.sort)
+		if have, ok := c.pfSigs[key]; ok && have != want {
+			fn = smtName(strings.Trim(fn, "|") + "~" + strings.Join(sig2, "_"))
+		} else {
+			c.pfSigs[key] = want
 		}
 		c.sc.declareFun(fn, sorts, l.sort)
 		return tApp(l.sort, fn, ts...)
@@ -769,6 +787,9 @@ func sortedKeys(m map[string]bool) []string {
 // if it is none of them, nothing is known after the call.
 func (fr *Frame) dispatchClosures(instr ssa.Instruction, cands []*Val, fnv *Val, args []*Val, st *State, reach *Term, rt types.Type) *Val {
 	c := fr.c
+	sig := cands[0].Clo.Fn.Signature
+	// the value of the call as an uninterpreted application (what call(f, args...) means in contracts)
+	ap, aperr := c.applyFuncValue(fnv, args, sig)
 	var states []*State
 	var conds []*Term
 	var results []*Val
@@ -778,21 +799,34 @@ func (fr *Frame) dispatchClosures(instr ssa.Instruction, cands []*Val, fnv *Val,
 		g := c.sc.freshConst("isclo", SBool)
 		c.sc.assert(tEq(g, tAnd(reach, cond)))
 		s2 := st.clone()
-		r := fr.inline(instr, cv.Clo.Fn, cv.Clo.Bind, args, s2, g, rt)
+		r := fr.callStatic(instr, cv.Clo.Fn, cv.Clo.Bind, cv.Clo.Fn.Signature, args, s2, g, rt)
+		if aperr == nil && r != nil {
+			for _, l := range leavesOf(rt) {
+				if rl, al := r.at(l.path), ap.at(l.path); rl.T != nil && al.T != nil && rl.T.Sort == al.T.Sort {
+					c.sc.assert(tImp(g, tEq(al.T, rl.T)))
+				}
+			}
+		}
 		states = append(states, s2)
 		conds = append(conds, g)
 		results = append(results, r)
 		none = append(none, tNot(cond))
 	}
-	// residual: unknown function
+	// residual: a function value from elsewhere - pure, total, uninterpreted (standing assumption on function values)
 	rg := c.sc.freshConst("isclo_none", SBool)
 	c.sc.assert(tEq(rg, tAnd(append([]*Term{reach}, none...)...)))
 	s3 := st.clone()
-	c.havocAll(s3, rg, nil)
-	c.V.assumeGlobalAxioms(c, s3, rg)
+	var rres *Val
+	if aperr == nil {
+		rres = ap
+	} else {
+		c.havocAll(s3, rg, nil)
+		c.V.assumeGlobalAxioms(c, s3, rg)
+		rres = c.freshVal("dyncall", rt)
+	}
 	states = append(states, s3)
 	conds = append(conds, rg)
-	results = append(results, c.freshVal("dyncall", rt))
+	results = append(results, rres)
 	merged := c.merge("dispatch", states, conds)
 	st.h = merged.h
 	if len(leavesOf(rt)) == 0 {
